@@ -715,6 +715,26 @@ VariablePtr Analyser::AnalyserImpl::voiFirstOccurrence(const VariablePtr &variab
     return res;
 }
 
+/**
+ * The text of a token element (ci or cn): its text children, before or after
+ * its sep child (if any), whatever else (e.g., a comment) stands between them.
+ */
+static std::string tokenText(const XmlNodePtr &node, bool afterSep = false)
+{
+    std::string res;
+    bool sepSeen = false;
+
+    for (auto child = node->firstChild(); child != nullptr; child = child->next()) {
+        if (child->isMathmlElement("sep")) {
+            sepSeen = true;
+        } else if (child->isText() && (sepSeen == afterSep)) {
+            res += child->convertToStrippedString();
+        }
+    }
+
+    return res;
+}
+
 void Analyser::AnalyserImpl::analyseNode(const XmlNodePtr &node,
                                          AnalyserEquationAstPtr &ast,
                                          const AnalyserEquationAstPtr &astParent,
@@ -1005,7 +1025,7 @@ void Analyser::AnalyserImpl::analyseNode(const XmlNodePtr &node,
         // Token elements.
 
     } else if (node->isMathmlElement("ci")) {
-        auto variableName = node->firstChild()->convertToStrippedString();
+        auto variableName = tokenText(node);
         auto variable = component->variable(variableName);
         // Note: we always have a variable. Indeed, if we were not to have one,
         //       it would mean that `variableName` is the name of a variable
@@ -1035,9 +1055,9 @@ void Analyser::AnalyserImpl::analyseNode(const XmlNodePtr &node,
         if (mathmlChildCount(node) == 1) {
             // We are dealing with an e-notation based CN value.
 
-            ast->mPimpl->populate(AnalyserEquationAst::Type::CN, node->firstChild()->convertToStrippedString() + "e" + node->firstChild()->next()->next()->convertToStrippedString(), astParent);
+            ast->mPimpl->populate(AnalyserEquationAst::Type::CN, tokenText(node) + "e" + tokenText(node, true), astParent);
         } else {
-            ast->mPimpl->populate(AnalyserEquationAst::Type::CN, node->firstChild()->convertToStrippedString(), astParent);
+            ast->mPimpl->populate(AnalyserEquationAst::Type::CN, tokenText(node), astParent);
         }
 
         std::string unitsName = node->attribute("units");
